@@ -75,7 +75,7 @@ func init() {
 
 func (p *c15) ID() string { return "C15" }
 func (p *c15) Rule() string {
-	return "histories over a 38-symbol alphabet {edit page/component/layout x mtime policy (advance by a second, advance by a millisecond, equal, backwards, zero), front-matter-only and body-only edits, delete/recreate page/component/layout, create/delete a layout next to the page that shadows layouts/lay.vuego, delete/recreate the default layouts/base.vuego, make page/component invalid (bad YAML), render the page via Load().Render / RenderFile / Vue.Render (with and without caller data; the page reads a variable before a top-level <template> assigns it) / Vue.RenderFragment, render a second page that names no layout, render a string template that includes the component} on a page with front-matter + include + layout + a named slot template that the layout consumes; exhaustive for length <=3 (quick) / <=4 (thorough) each followed by eight renders, plus seeded histories of length 6-20; after every render step the long-lived engine's (bytes, error-ness) is compared with a fresh engine; cache hit/miss/store hook counts prove which comparisons were answered from the cache; non-trivial = history containing at least one edit followed by a render; distinct by the op list"
+	return "histories over a 38-symbol alphabet {edit page/component/layout x mtime policy (advance by a second, advance by a millisecond, equal, backwards, zero), front-matter-only and body-only edits, delete/recreate page/component/layout, create/delete a layout next to the page that shadows layouts/lay.vuego, delete/recreate the default layouts/base.vuego, make page/component invalid (bad YAML), render the page via Load().Render / RenderFile / Vue.Render (with and without caller data; the page reads a variable before a top-level <template> assigns it) / Vue.RenderFragment, render a second page that names no layout, render a string template that includes the component} on a page with front-matter + include + layout + a named slot template that the layout consumes; exhaustive for length <=3 (quick) / <=4 (thorough) each followed by eight renders, plus seeded histories of length 6-20; plus overlay histories: the engines on an OverlayFS(upper, lower) whose lower layer holds page, component and layout with modification times a day older than / a day newer than the overriding files, 6 histories of edits, deletions and re-creations of the overriding files x Load.Render / RenderFile / Vue.Render; after every render step the long-lived engine's (bytes, error-ness) is compared with a fresh engine; cache hit/miss/store hook counts prove which comparisons were answered from the cache; non-trivial = history containing at least one edit followed by a render; distinct by the op list"
 }
 
 func (p *c15) exh(ctx core.Ctx) int {
@@ -89,7 +89,9 @@ func (p *c15) exh(ctx core.Ctx) int {
 	return t
 }
 
-func (p *c15) Plan(ctx core.Ctx) int { return p.exh(ctx) + ctx.Pick(5000, 150000) }
+func (p *c15) nRand(ctx core.Ctx) int { return ctx.Pick(5000, 150000) }
+
+func (p *c15) Plan(ctx core.Ctx) int { return p.exh(ctx) + p.nRand(ctx) + c15NOverlay() }
 
 func (p *c15) Gen(ctx core.Ctx, i int) any {
 	n := len(p.alpha)
@@ -106,6 +108,9 @@ func (p *c15) Gen(ctx core.Ctx, i int) any {
 			i /= n
 		}
 		return c15Case{Ops: append(ops, "R7", "R1", "R5", "R2", "R9", "R6", "R3", "R8", "R7", "R4")}
+	}
+	if j := i - p.exh(ctx) - p.nRand(ctx); j >= 0 {
+		return c15GenOverlay(j)
 	}
 	r := core.NewRNG(ctx.Seed, 0xC15, uint64(i))
 	var ops []string
@@ -334,6 +339,9 @@ func (e c15Engines) render(kind string) (string, error) {
 
 func (p *c15) Exec(ctx core.Ctx, cc any) core.Obs {
 	c := cc.(c15Case)
+	if len(c.Ops) > 3 && c.Ops[0] == "OVERLAY" {
+		return c15ExecOverlay(c)
+	}
 	var o core.Obs
 	c15Install()
 	h0, m0, s0 := c15Hits.Load(), c15Misses.Load(), c15Stores.Load()
